@@ -85,6 +85,7 @@ type Ctx struct {
 	mu          sync.Mutex
 	violations  []Violation
 	vioSigs     map[string]int
+	vioTotal    int64
 	knownSeen   map[string]int
 	inconcl     []string
 	counters    map[string]int64
@@ -281,6 +282,17 @@ func (c *Ctx) Violation(sig, what string, replay interface{}) {
 		}
 	}
 	c.vioSigs[sig]++
+	c.vioTotal++
+	if c.vioTotal == 1 {
+		atomic.StoreInt64(&firstViolationAt, time.Now().UnixNano())
+	}
+	if c.vioTotal == abortAfter {
+		// a tree this broken needs no further witnesses, and every further case
+		// on it may cost minutes (runaway scans, dead processes): the rest of
+		// the work is skipped, the verdict is already "violated"
+		atomic.StoreInt32(&aborted, 1)
+		c.counters["stopped_early_after_this_many_violations"] = abortAfter
+	}
 	if c.vioSigs[sig] > 3 {
 		return // do not flood: first three witnesses per signature
 	}
@@ -525,6 +537,28 @@ func (l *limitWriter) Write(p []byte) (int, error) {
 }
 
 // ParallelFor runs f(i) for i in [0,n) on up to workers goroutines.
+// abortAfter violations (counting every witness) the remaining cases of a run
+// are skipped.
+const abortAfter = 60
+
+var aborted int32
+
+// firstViolationAt: once a violation has been reported the verdict is fixed;
+// the run goes on collecting witnesses for abortGrace and then skips what is
+// left (a broken tree can make every further case cost minutes).
+var firstViolationAt int64
+
+const abortGrace = 45 * time.Second
+
+// Aborted reports whether the remaining work of the run should be skipped.
+func Aborted() bool {
+	if atomic.LoadInt32(&aborted) == 1 {
+		return true
+	}
+	t := atomic.LoadInt64(&firstViolationAt)
+	return t != 0 && time.Since(time.Unix(0, t)) > abortGrace
+}
+
 func ParallelFor(n, workers int, f func(i int)) {
 	if workers < 1 {
 		workers = 1
@@ -537,7 +571,7 @@ func ParallelFor(n, workers int, f func(i int)) {
 			defer wg.Done()
 			for {
 				i := int(atomic.AddInt64(&next, 1))
-				if i >= n {
+				if i >= n || Aborted() {
 					return
 				}
 				f(i)
